@@ -12,7 +12,7 @@ from ..model import qual
 from ..symx import Expander, ref_eval, TupleV
 from ..anf import R
 from .. import anf
-from .common import dtype_hazard_obligations, refresh_obligation, formula_ob, struct_ob, guard, last_return, rel, U, purity_obligations
+from .common import overflow_obligations, dtype_hazard_obligations, refresh_obligation, formula_ob, struct_ob, guard, last_return, rel, U, purity_obligations
 from ..report import AnalysisError
 
 REL = "inference/likelihoods.py"
@@ -24,7 +24,7 @@ REFERENCE = {
     "LogisticLikelihood": ("sigma", "-((y-F)/(s*sqrt(3)/pi)) - 2*log(1+exp(-((y-F)/(s*sqrt(3)/pi)))) "
                                     "- log(s*sqrt(3)/pi)"),
 }
-FLOORS = {"float-arithmetic": 1, "density-form": 3, "gradient-is-derivative": 3, "jacobian-contraction": 3,
+FLOORS = {"overflow-safe": 1, "float-arithmetic": 1, "density-form": 3, "gradient-is-derivative": 3, "jacobian-contraction": 3,
           "negations": 6, "wiring": 6, "ctor-wiring": 3, "arguments-not-mutated": 15}
 
 ARRAYS = {"y_data", "uncertainties", "predictions"}
@@ -163,6 +163,7 @@ def run(prog, tier):
     obs.extend(purity_obligations(prog, "arguments-not-mutated", [base] + subclasses))
 
     obs.extend(dtype_hazard_obligations(prog, "float-arithmetic", ['inference/likelihoods.py']))
+    obs.extend(overflow_obligations(prog, "overflow-safe", prog.subclasses("Likelihood")))
 
     meta = {
         "explanation": "AST def-use expansion of each likelihood's value / gradient expression into an "
